@@ -91,6 +91,15 @@ struct C02Vis {
 			if(std::addressof(cels.front()) != base + m.off[0]) violation("C02:elements:front", "elements().front() is not the first canonical element");
 			if(std::addressof(cels.back()) != base + m.off[std::size_t(N - 1)]) violation("C02:elements:back", "elements().back() is not the last canonical element");
 			if(els.size() != N) violation("C02:elements:size", "elements().size() != num_elements()");
+			// the same element range of a view whose index bases are not 0: positions are independent of the index bases
+			{ op("elements:re-based"); L const r = g->in(-3, 5); L const k2 = g->below(N); auto chk_rb = [&](auto&& w, char const* what) { auto&& wels = w.elements();
+					if(std::addressof(wels[k2]) != base + m.off[std::size_t(k2)]) violation(std::string("C02:elements:re-based:range-subscript:") + what, "elements()[k] of a re-based view designates root offset " + std::to_string(std::addressof(wels[k2]) - base) + ", the k-th canonical element is at " + std::to_string(m.off[std::size_t(k2)]));
+					auto it = wels.begin(); it += k2; if(std::addressof(*it) != base + m.off[std::size_t(k2)]) violation(std::string("C02:elements:re-based:iterator:") + what, "elements().begin() + k of a re-based view is not the k-th canonical element");
+					if(std::addressof(wels.begin()[k2]) != base + m.off[std::size_t(k2)]) violation(std::string("C02:elements:re-based:subscript:") + what, "elements().begin()[k] of a re-based view is not the k-th canonical element");
+					L q = 0; for(auto i2 = wels.begin(); !(i2 == wels.end()) && q <= N; ++i2, ++q) { if(q < N && std::addressof(*i2) != base + m.off[std::size_t(q)]) { violation(std::string("C02:elements:re-based:walk:") + what, "++ over elements() of a re-based view leaves canonical order at step " + std::to_string(q)); break; } }
+					if(q != N) violation(std::string("C02:elements:re-based:count:") + what, "elements() of a re-based view has " + std::to_string(q) + " steps, not num_elements()"); count("re-based-element-ranges"); };
+				chk_rb(v.reindexed(r), "leading");
+				if constexpr(D >= 2) { chk_rb(v.rotated().reindexed(r).unrotated(), "second"); chk_rb(v.reindexed(r, -r + 1), "both"); } }
 			// an iterator bound to ANOTHER range of the same static type (other extents) is assigned from an iterator of this range, then moved
 			if(s0 >= 2) { op("elements:cross-range-assign"); auto&& w = v.sliced(0, s0 - 1); auto&& wels = w.elements(); if constexpr(std::is_same_v<decltype(wels.begin()), decltype(els.begin())>) {
 				auto x = wels.begin(); L const pw = g->below(wels.size() + 1); x += pw; L const pv = g->below(N); auto src = els.begin(); src += pv; x = src;
